@@ -101,7 +101,13 @@ def gen_value(rng, typ, mm, fmt='xmi'):
         if rng.random() < 0.25:
             return ['s', _pick(rng, CRITICAL_STRINGS)]
         if rng.random() < 0.1:
-            return ['s', ''.join(chr(random_code_point(rng, fmt)) for _ in range(rng.randrange(1, 5)))]
+            cps = [random_code_point(rng, fmt) for _ in range(rng.randrange(1, 5))]
+            # a high surrogate directly followed by a low one IS an astral character for JSON (json.dumps/loads
+            # merges the pair): such a string has no JSON text of its own, whatever the library does
+            for i in range(len(cps) - 1, 0, -1):
+                if 0xd800 <= cps[i - 1] < 0xdc00 <= cps[i] < 0xe000:
+                    cps.insert(i, 0x78)
+            return ['s', ''.join(chr(c) for c in cps)]
         pool = XML_STRINGS if fmt == 'xmi' or rng.random() < 0.8 else JSON_ONLY_STRINGS
         if rng.random() < 0.15:      # composed
             return ['s', _pick(rng, pool) + _pick(rng, pool)]
